@@ -87,6 +87,21 @@ def _acc(name):
     if name == "frequency_axis_data":
         return (lambda v: qr.FrequencyAxis(v, 3, 1.0),
                 lambda o: float(o.data[0]), lambda o: float(o._data[0]))
+    if name == "hamiltonian_rwa":
+        # set_rwa stores block-averaged energies; what is stored must not depend on the units
+        # that were current when it was called
+        def sup(v):
+            h = qr.Hamiltonian(data=[[0.0, 0.0, 0.0], [0.0, v, 0.0], [0.0, 0.0, v]])
+            h.set_rwa([0, 1])
+            return h
+        return (sup, None, lambda o: float(o.rwa_energies[1]))
+    if name == "molecule_rwa":
+        def sup(v):
+            m = qr.Molecule(elenergies=[0.0, v])
+            m.get_Hamiltonian()
+            m.set_electronic_rwa([0, 1])
+            return m
+        return (sup, None, lambda o: float(o.get_Hamiltonian().rwa_energies[1]))
     if name == "corfce_reorg":
         def sup(v):
             ta = qr.TimeAxis(0.0, 20, 1.0)
@@ -104,8 +119,9 @@ def _acc(name):
 
 ACCESSORS = ["hamiltonian", "molecule_init", "molecule_set", "mode_init", "mode_set", "submode",
              "aggregate_coupling", "aggregate_coupling_matrix", "frequency_axis_start",
-             "frequency_axis_step", "frequency_axis_data", "corfce_reorg", "spectdens_reorg"]
-POSITIVE_ONLY = {"corfce_reorg", "spectdens_reorg", "mode_init", "mode_set", "submode",
+             "frequency_axis_step", "frequency_axis_data", "corfce_reorg", "spectdens_reorg",
+             "hamiltonian_rwa", "molecule_rwa"]
+POSITIVE_ONLY = {"corfce_reorg", "spectdens_reorg", "mode_init", "mode_set", "submode", "molecule_rwa",
                  "frequency_axis_step"}
 
 
@@ -277,13 +293,61 @@ def call_menu():
                                                cortime=60.0, T=300.0))
     M["SpectralDensity.get_CorrelationFunction"] = (_sd, lambda p: p.get_CorrelationFunction())
     M["SpectralDensity.get_FTCorrelationFunction"] = (_sd, lambda p: p.get_FTCorrelationFunction())
+    def _cf():
+        ta = systems.time_axis(60, 2.0)
+        return systems.corfce(ta, BATH)
+    M["cf.copy"] = (_cf, lambda p: p.copy())
+    M["cf.get_SpectralDensity"] = (_cf, lambda p: p.get_SpectralDensity())
+    M["cf.get_FTCorrelationFunction"] = (_cf, lambda p: p.get_FTCorrelationFunction())
+    M["cf.get_OddFTCorrelationFunction"] = (_cf, lambda p: p.get_OddFTCorrelationFunction())
+    M["cf.get_EvenFTCorrelationFunction"] = (_cf, lambda p: p.get_EvenFTCorrelationFunction())
+    M["cf.measure_reorganization_energy"] = (_cf, lambda p: p.measure_reorganization_energy())
+    M["cf.reorganization_energy_consistent"] = (
+        _cf, lambda p: p.reorganization_energy_consistent())
+    M["cf+=cf"] = (_two_cf, lambda p: p[0].__iadd__(p[1]))
+    M["sd.copy"] = (_sd, lambda p: p.copy())
+    M["sd+sd"] = (lambda: (_sd(), _sd()), lambda p: p[0] + p[1])
+    M["sd.measure_reorganization_energy"] = (_sd, lambda p: p.measure_reorganization_energy())
+
+    def _mol():
+        with qr.energy_units("1/cm"):
+            m = qr.Molecule(elenergies=[0.0, 12000.0])
+            md = qr.Mode(frequency=300.0)
+        m.add_Mode(md)
+        md.set_nmax(0, 2)
+        md.set_nmax(1, 2)
+        md.set_HR(1, 0.1)
+        return m
+    M["Molecule.get_Hamiltonian"] = (_mol, lambda p: p.get_Hamiltonian())
+    M["Molecule.set_electronic_rwa"] = (
+        _mol, lambda p: (p.get_Hamiltonian(), p.set_electronic_rwa([0, 1])))
+    M["Molecule.get_thermal_ReducedDensityMatrix"] = (
+        _mol, lambda p: p.get_thermal_ReducedDensityMatrix())
+    M["Mode()+add_Mode"] = (
+        lambda: qr.Molecule(elenergies=[0.0, 1.0]),
+        lambda p: p.add_Mode(qr.Mode(frequency=0.01)))
+    M["get_TransitionDipoleMoment"] = (_prebuilt, lambda p: p[1].get_TransitionDipoleMoment())
+    M["get_SystemBathInteraction"] = (_prebuilt, lambda p: p[1].get_SystemBathInteraction())
+    M["get_ReducedDensityMatrixPropagator(Lindblad)"] = (
+        _prebuilt, lambda p: p[1].get_ReducedDensityMatrixPropagator(
+            p[0], relaxation_theory="standard_Redfield", as_operators=True))
+
+    def _dfw():
+        ta = systems.time_axis(16, 2.0, )
+        f = qr.DFunction(ta, numpy.exp(-ta.data / 10.0) * (1 + 0.3j))
+        return f.get_Fourier_transform()
+    M["DFunction(w).inverse_FT"] = (_dfw, lambda p: p.get_inverse_Fourier_transform())
+    M["DFunction(w).at"] = (_dfw, lambda p: p.at(0.0))
+    M["TestAggregate(dimer-2-env)"] = (
+        lambda: None, lambda p: qr.TestAggregate("dimer-2-env").build())
     M["TimeAxis.get_FrequencyAxis"] = (lambda: systems.time_axis(60, 2.0),
                                        lambda p: p.get_FrequencyAxis().get_TimeAxis())
     M["convert"] = (lambda: None, lambda p: qr.convert(1.0, "eV", to="1/cm"))
     M["get_KTHierarchy"] = (_prebuilt, lambda p: p[1].get_KTHierarchy(depth=1))
     M["liouville_pathways_3T"] = (
         lambda: _prebuilt(mult=2),
-        lambda p: (p[1].diagonalize(), p[1].liouville_pathways_3T(ptype="R1g")))
+        lambda p: (p[1].diagonalize(), p[1].liouville_pathways_3T(
+            ptype="R1g", lab=qr.LabSetup())))
     M["trace_over_vibrations"] = (
         _prebuilt, lambda p: p[1].trace_over_vibrations(
             p[1].get_DensityMatrix(condition_type="thermal", temperature=300.0)))
@@ -325,6 +389,7 @@ class UWorld:
         self.qr = isolation.qr()
         self.stack = []          # ("energy"|"length", units, cm)
         self.viol = []
+        self.prepared = None
         self.init = _units_state()
 
     def v(self, key, what, det=None):
@@ -361,6 +426,19 @@ class UWorld:
         cm.__enter__()
         self.stack.append((typ, units, cm))
         self.check("enter")
+
+    def prepare(self, typ, units):
+        """Create a context object now, enter it later (possibly inside other contexts)."""
+        self.prepared = (typ, units, self.qr.energy_units(units) if typ == "energy"
+                         else self.qr.length_units(units))
+        self.check("prepare")
+
+    def enter_prepared(self):
+        typ, units, cm = self.prepared
+        self.prepared = None
+        cm.__enter__()
+        self.stack.append((typ, units, cm))
+        self.check("enter-prepared")
 
     def _leave(self, exc):
         typ, un, cm = self.stack.pop()
@@ -417,6 +495,7 @@ class UWorld:
     def close(self):
         while self.stack:
             self._leave(None)
+            self.check("exit")
         got = _units_state()
         if got != self.init:
             self.v("units-not-restored-after-outermost-exit",
@@ -437,19 +516,28 @@ def execute(hist):
         getattr(w, op[0])(*op[1:])
     depth = len(w.stack)
     key = [[(t, u) for t, u, c in w.stack], _units_state(), nexc,
+           None if w.prepared is None else list(w.prepared[:2]),
+           any(op[0] == "prepare" for op in hist),
            [op[1] for op in hist if op[0] == "call"][-1:] if False else None]
     en = []
     if depth < cfg["nest"]:
         for u in (["1/cm", "eV"] if execute.tier == "quick" else ["1/cm", "eV", "nm"]):
             en.append(["enter", "energy", u])
         en.append(["enter", "length", "nm"])
+        if w.prepared is not None:
+            en.append(["enter_prepared"])
+    if w.prepared is None and not any(op[0] == "prepare" for op in hist):
+        en.append(["prepare", "energy", "THz"])
+        if execute.tier == "thorough":
+            en.append(["prepare", "length", "nm"])
     if depth > 0:
         en.append(["exit"])
         if nexc < cfg["nexc"]:
             en.append(["exit_exc"])
             en.append(["raise_all"])
-    for name in menu():
-        en.append(["call", name])
+    if execute.with_calls:
+        for name in menu():
+            en.append(["call", name])
     w.close()
     ncalls = sum(1 for op in hist if op[0] == "call")
     return {"key": key, "enabled": en, "violations": w.viol,
@@ -459,6 +547,7 @@ def execute(hist):
 
 
 execute.tier = "quick"
+execute.with_calls = True
 
 
 # ---- Part F ------------------------------------------------------------
@@ -563,6 +652,11 @@ def run(run):
     run.note(fault_points_per_call=cmap)
     run_grid(run, fc, _dispatch, section="F-fault-at-every-library-call",
              cap_s=25 if run.tier == "quick" else 420)
-    # H
+    # H1: context protocol alone (cheap transitions) explored deep
+    execute.with_calls = False
+    run_bfs(run, execute, 6 if run.tier == "quick" else 9, cap_s=15 if run.tier == "quick" else 200,
+            section="H-context-protocol")
+    # H2: contexts interleaved with every call of the menu
+    execute.with_calls = True
     run_bfs(run, execute, CFG[run.tier]["depth"], cap_s=25 if run.tier == "quick" else 300,
-            section="H-context-histories")
+            section="H-context-histories-with-calls")
